@@ -377,9 +377,12 @@ LExpect(s, st, res, status, n) ==
 (*       | [k |-> "cell", v |-> Value]                                       *)
 SpecNull == [t |-> "specnull"]   \* the null a padding read leaves at the index it asked for
 Fresh    == [t |-> "fresh"]      \* the same while the statement that padded is still running (absent for its store)
-GHdr(bk, n, c) == [t |-> "arr", id |-> bk, len |-> n, cap |-> c]
+\* off: how many slots of the backing lie before the view (popfirst re-slices from the front); cap counts from off
+GHdrO(bk, o, n, c) == [t |-> "arr", id |-> bk, len |-> n, cap |-> c, off |-> o]
+GHdr(bk, n, c) == GHdrO(bk, 0, n, c)
+GSlot(st, h, j) == st.heap[h.id].s[h.off + j + 1]          \* the cell at index j (from 0) of the view
 GAlloc(st, e) == [st EXCEPT !.heap = Append(@, e)]
-GView(st, h) == SubSeq(st.heap[h.id].s, 1, h.len)
+GView(st, h) == SubSeq(st.heap[h.id].s, h.off + 1, h.off + h.len)
 GCopy(v) == IF v.t \in {"specnull", "missing", "fresh"} THEN Null ELSE v        \* copyValue
 GFail(st, why) == [st |-> st, val |-> Null, res |-> Null, status |-> why]
 
@@ -400,7 +403,7 @@ GGrow(st, h, newlen, spec) ==
   LET st1 == GAlloc(st, [k |-> "cell", v |-> IF spec /\ h.len + 1 = newlen THEN SpecNull ELSE Null])
       c == Len(st1.heap)
   IN IF h.len < h.cap
-     THEN GGrow([st1 EXCEPT !.heap[h.id].s[h.len + 1] = c], [h EXCEPT !.len = @ + 1], newlen, spec)
+     THEN GGrow([st1 EXCEPT !.heap[h.id].s[h.off + h.len + 1] = c], [h EXCEPT !.len = @ + 1], newlen, spec)
      ELSE LET ncap == IF h.cap = 0 THEN 1 ELSE 2 * h.cap      \* growslice for 8-byte elements, cap <= 16
               st2 == GAlloc(st1, [k |-> "slots", s |-> GView(st, h) \o <<c>> \o [i \in 1..(ncap - h.len - 1) |-> 0]])
           IN GGrow(st2, GHdr(Len(st2.heap), h.len + 1, ncap), newlen, spec)
@@ -423,7 +426,7 @@ GReadAt(st, cur, sels, pads) ==
       ELSE IF j >= cur.len THEN
          IF pads THEN LET g == GGrowT(st, cur, j + 1, TRUE) IN [st |-> g.st, val |-> g.h, res |-> Missing, status |-> "ok"]
          ELSE [st |-> st, val |-> cur, res |-> Missing, status |-> "ok"]
-      ELSE LET c == st.heap[cur.id].s[j + 1]
+      ELSE LET c == GSlot(st, cur, j)
                r == GReadAt(st, st.heap[c].v, rest, pads)
            IN IF r.status # "ok" THEN r
               ELSE [st |-> [r.st EXCEPT !.heap[c].v = r.val], val |-> cur, res |-> r.res, status |-> "ok"]
@@ -456,7 +459,7 @@ GAssignAt(st, cur, sels, v) ==
        LET j == Norm(cur.len, sel.i) IN
        IF j < 0 THEN GFail(st, "error")
        ELSE LET g == IF j >= cur.len THEN GGrowT(st, cur, j + 1, FALSE) ELSE [st |-> st, h |-> cur]
-                c == g.st.heap[g.h.id].s[j + 1]
+                c == GSlot(g.st, g.h, j)
                 child == IF j >= cur.len THEN Missing ELSE g.st.heap[c].v
                 r == GAssignAt(g.st, child, rest, v)
             IN IF r.status # "ok" THEN r
@@ -480,7 +483,7 @@ GResolve(st, cur, sels) ==
   IF cur.t = "arr" /\ sel.s = "idx" THEN
      LET j == Norm(cur.len, sel.i) IN
      IF j < 0 THEN sels
-     ELSE <<I(j)>> \o GResolve(st, IF j < cur.len THEN st.heap[st.heap[cur.id].s[j + 1]].v ELSE Missing, Tail(sels))
+     ELSE <<I(j)>> \o GResolve(st, IF j < cur.len THEN st.heap[GSlot(st, cur, j)].v ELSE Missing, Tail(sels))
   ELSE IF cur.t = "obj" /\ sel.s = "key" /\ sel.k \in DOMAIN st.heap[cur.id].m THEN
      <<sel>> \o GResolve(st, st.heap[cur.id].m[sel.k], Tail(sels))
   ELSE sels
@@ -489,6 +492,25 @@ GResolvePath(st, p) == Path(p.base, GResolve(st, st.env[p.base], p.sels))
 GAssignPath(st, p, v) ==
   LET r == GAssignAt(st, st.env[p.base], p.sels, v)
   IN IF r.status # "ok" THEN r ELSE [r EXCEPT !.st.env[p.base] = r.val]
+
+(* the length-changing array methods applied to the array held in location p: they re-slice / append   *)
+(* the header that sits in that location (pop leaves the popped cell in the backing, beyond the view)  *)
+GMethod(st, p, h, m, arg) ==
+  LET shrink(h2, res) ==
+        LET w == GAssignPath([st EXCEPT !.taint = IF GHeaders(st, h.id) >= 2 THEN @ + 1 ELSE @], p, h2)
+        IN [st |-> w.st, res |-> res, status |-> w.status]
+  IN
+  CASE m = "pop" ->
+         IF h.len = 0 THEN [st |-> st, res |-> Null, status |-> "ok"]
+         ELSE shrink([h EXCEPT !.len = @ - 1], GCopy(st.heap[GSlot(st, h, h.len - 1)].v))
+    [] m = "popfirst" ->
+         IF h.len = 0 THEN [st |-> st, res |-> Null, status |-> "ok"]
+         ELSE shrink([h EXCEPT !.len = @ - 1, !.cap = @ - 1, !.off = @ + 1], GCopy(st.heap[GSlot(st, h, 0)].v))
+    [] m = "push" ->
+         LET g == GGrowT(st, h, h.len + 1, FALSE)
+             c == GSlot(g.st, g.h, h.len)
+             w == GAssignPath([g.st EXCEPT !.heap[c].v = arg], p, g.h)
+         IN [st |-> w.st, res |-> g.h, status |-> w.status]
 
 \* containers (object ids, backing ids) reachable from a value
 RECURSIVE GReach(_, _, _)
